@@ -33,7 +33,9 @@ def synthetic():
 
 
 FAMILIES = {'alcohols': ['Water', 'Methanol', 'Ethanol', 'Propanol', 'Butanol'],
-            'hydrocarbons': ['Hexane', 'Heptane', 'Octane', 'Benzene', 'Toluene']}
+            'hydrocarbons': ['Hexane', 'Heptane', 'Octane', 'Benzene', 'Toluene'],
+            # pairs with a miscibility gap under the activity model (only used with activity coefficients)
+            'partly_miscible': ['Methanol', 'Hexane', 'Water', 'Ethyl acetate']}
 
 
 def real(family, ideal, pcf=False):
@@ -86,7 +88,7 @@ def exact(op, w, spec, scale, perm):
 
 def measured(family, ideal, ids, z, T0, k, perm, pcf=False):
     """residuals of the C08 clauses on a real package at composition z (over ids), temperature T0"""
-    obs = dict(exc=NONE, msg='', eq_dev=0, norm_dev=0, rt_dev=0, order_ok=True, single_dev=0, scale_dev=0, perm_dev=0, hist_dev=0, in_range=True)
+    obs = dict(exc=NONE, msg='', eq_dev=0, norm_dev=0, rt_dev=0, order_ok=True, single_dev=0, scale_dev=0, perm_dev=0, hist_dev=0, in_range=True, atm_dev=0)
     try:
         with warnings.catch_warnings():
             warnings.simplefilter('ignore')
@@ -126,6 +128,9 @@ def measured(family, ideal, ids, z, T0, k, perm, pcf=False):
                 t1, t2 = bp(e, P=P1), dp(e, P=P1)
                 Ts = chems[j].Tsat(P1)
                 obs['single_dev'] = cap(max(abs(s1.P - Ps) / Ps, abs(s2.P - Ps) / Ps, abs(t1.T - Ts) / Ts, abs(t2.T - Ts) / Ts) * 1e9)
+                # the round trip started from exactly one atmosphere (P -> T -> P), single component and mixture
+                a1, a2, a3 = bp(e, P=P1), dp(e, P=P1), bp(zn, P=P1)
+                obs['atm_dev'] = cap(max(abs(bp(e, T=a1.T).P - P1), abs(dp(e, T=a2.T).P - P1), abs(bp(zn, T=a3.T).P - P1)) / P1 * 1e9)
                 # scale
                 bk, dk = bp(k * zn, T=T0), dp(k * zn, T=T0)
                 bk2, dk2 = bp(k * zn, P=Pb), dp(k * zn, P=Pd)
